@@ -109,14 +109,20 @@ def check(prog, res, tier):
                 bounds.append(const_of(n.slice.upper).value)
     ob = Ob('C14.b', 'PVV: the second decimalisation pass runs whenever fewer than 4 digits were found and the result is the first 4',
             func_where(pfi), "if len(values_pass1) < 4: ...; ''.join(values_pass1[0:4])")
-    if not guards or not bounds:
+    if not guards and not bounds:
+        # the decimalisation is not written as "second pass if fewer than N, then first N" any more: this sibling-constant
+        # rule has nothing to compare (documented limit, DESIGN 13d); the obligation is not counted
+        res.note('C14.b not applicable: calculate_pvv has no `len(..) < N` guard / `[0:N]` result slice to compare')
+        ob = None
+    elif not guards or not bounds:
         ob.verdict, ob.detail = UNDECIDED, f'guard/slice constants not recognised (guards={guards}, bounds={bounds})'
     elif guards == [4] and bounds == [4]:
         ob.verdict, ob.detail = PROVED, 'guard constant 4 == slice bound 4'
     else:
         ob.verdict, ob.detail, ob.witness = REFUTED, f'second-pass guard {guards} and result slice {bounds} do not both equal 4', \
             {'guards': guards, 'bounds': bounds}
-    res.add(ob)
+    if ob is not None:
+        res.add(ob)
 
     # ---- C14.c delegation
     mci = prog.cls('pinblock.VisaPVVPinBlockMixin')
